@@ -8,8 +8,8 @@ declare -A ALT=( [C04-B]="C08" [C09-A]="C09 C08" )
 for id in "${IDS[@]}"; do
   prop=${id%%-*}; checks=${ALT[$id]:-$prop}
   if ! git -C /repo diff --quiet; then echo "$id: /repo dirty, stopping"; exit 3; fi
-  if ! git -C /repo apply --check seeded/$id/patch.diff 2>/dev/null; then echo "$id: PATCH-DOES-NOT-APPLY"; continue; fi
-  git -C /repo apply seeded/$id/patch.diff
+  if ! git -C /repo apply --check /verif/seeded/$id/patch.diff 2>/dev/null; then echo "$id: PATCH-DOES-NOT-APPLY"; continue; fi
+  git -C /repo apply /verif/seeded/$id/patch.diff
   res=""
   for c in $checks; do
     caught=""
